@@ -3,6 +3,8 @@
  *   usage: drive_layout <history file> <work dir>
  * record (see extract/layout_main.ml for the grammar):
  *   hist <id> <api 0=SD 1=GR> <rank> <d0..> <nt> <hasfill> <fill>
+ *        hasfill: bit 0 = set the fill value; bits 1-2 = number of other attributes set BEFORE it, bits 3-4 = number set
+ *        after it (before the layout-selection call): the dataset's other metadata must not matter
  *   cfg <kind> <cache> <coder> <p1> <p2> <p3> <p4> <c0..>
  *     kind 0 contiguous | 1 chunked | 2 compressed | 3 chunked+compressed | 4 n-bit | 5 external file (p1 = offset)
  *          6 unlimited first dimension forced into linked blocks (p1 = SDsetblocksize) | 7 chunked+n-bit
@@ -22,7 +24,7 @@
 #include "hfile_priv.h"
 
 #define MAXR 8
-static long rank, dims[MAXR], nt, hasfill, fillv, api;
+static long rank, dims[MAXR], nt, hasfill, fillv, api, npre, npost;
 static long kind, cache0, coder, p1, p2, p3, p4, cl[MAXR];
 static char fname[1024], ename[1024];
 static int32 sd = FAIL, sds = FAIL, dummy = FAIL, fid = FAIL, gr = FAIL, ri = FAIL;
@@ -130,6 +132,26 @@ static unsigned char *ext_expected(long *nbytes)
     return out;
 }
 
+/* other attributes of the dataset / image: k-th of them, various types and lengths */
+static int other_attr(long k)
+{
+    static const char *names[] = {"units", "long_name", "valid_range", "scale", "zz_last", "aaa_first"};
+    char    txt[] = "metres per fortnight";
+    int32   iv[2] = {-5, 77};
+    float64 dv    = 2.5;
+    const char *nm = names[k % 6];
+    if (k % 3 == 0) return api == 0 ? SDsetattr(sds, nm, DFNT_CHAR8, (int32)strlen(txt), txt) : GRsetattr(ri, nm, DFNT_CHAR8, (int32)strlen(txt), txt);
+    if (k % 3 == 1) return api == 0 ? SDsetattr(sds, nm, DFNT_INT32, 2, iv) : GRsetattr(ri, nm, DFNT_INT32, 2, iv);
+    return api == 0 ? SDsetattr(sds, nm, DFNT_FLOAT64, 1, &dv) : GRsetattr(ri, nm, DFNT_FLOAT64, 1, &dv);
+}
+static int other_attrs(long from, long n)
+{
+    long k;
+    for (k = 0; k < n; k++)
+        if (other_attr(from + k) == FAIL) { dead = 1; printf("X setting another attribute failed\n"); return FAIL; }
+    return SUCCEED;
+}
+
 /* ---- SD ---------------------------------------------------------------- */
 static void sd_open_new(void)
 {
@@ -143,11 +165,13 @@ static void sd_open_new(void)
     if (kind == 6) d32[0] = SD_UNLIMITED;
     sds = SDcreate(sd, "data", (int32)nt, (int32)rank, d32);
     if (sds == FAIL) { dead = 1; printf("X SDcreate failed\n"); return; }
+    if (other_attrs(0, npre) == FAIL) return;
     if (hasfill) {
         char fv[8];
         put(fv, 0, fillv);
         if (SDsetfillvalue(sds, fv) == FAIL) { dead = 1; printf("X SDsetfillvalue failed\n"); return; }
     }
+    if (other_attrs(3, npost) == FAIL) return;
     if (chunked()) {
         HDF_CHUNK_DEF cd;
         int32         flags = HDF_CHUNK;
@@ -290,12 +314,14 @@ static void gr_open_new(void)
     ri = GRcreate(gr, "image", (int32)dims[2], (int32)nt, (int32)p2, d2);
     if (ri == FAIL) { dead = 1; printf("X GRcreate failed\n"); return; }
     if (p3 >= 0 && GRreqimageil(ri, (intn)p3) == FAIL) { dead = 1; printf("X GRreqimageil failed\n"); return; }
+    if (other_attrs(0, npre) == FAIL) return;
     if (hasfill) {
         char fv[64];
         long c;
         for (c = 0; c < dims[2]; c++) put(fv, c, fillv);
         if (GRsetattr(ri, FILL_ATTR, (int32)nt, (int32)dims[2], fv) == FAIL) { dead = 1; printf("X GRsetattr failed\n"); return; }
     }
+    if (other_attrs(3, npost) == FAIL) return;
     if (chunked()) {
         HDF_CHUNK_DEF cd;
         int32         flags = HDF_CHUNK;
@@ -403,6 +429,7 @@ int main(int argc, char **argv)
             if (rank < 1 || rank > MAXR) return 2;
             for (i = 0; i < rank; i++) dims[i] = rd(f);
             nt = rd(f); hasfill = rd(f); fillv = rd(f);
+            npre = (hasfill >> 1) & 3; npost = (hasfill >> 3) & 3; hasfill &= 1;
             dead = 0;
             alarm(30); /* a record that does not finish in 30 s is a hang: SIGALRM ends the run at this record */
             printf("H %s\n", id);
